@@ -14,7 +14,7 @@ The caller maps tags to its own rule ids and decides which tags it reports.
 """
 from . import g4
 from .build import Broken
-from .facts import strip, strip_all_casts, const_value, walk, callee_name
+from .facts import strip, strip_all_casts, const_value, walk, callee_name, expand
 from .g4 import BV, C0, C1, P, S, Unsupported, term_str
 
 
@@ -424,14 +424,21 @@ def analyse(fb, spec):
         if g is None:
             raise Broken("%s has no data accessor" % cls)
         found = False
-        for n in g.nodes():
-            if n.get("k") == "bin" and n.get("op") == "+":
-                l, rr = strip_all_casts(n["l"]), strip_all_casts(n["r"])
-                for a, b in ((l, rr), (rr, l)):
-                    if a.get("k") == "call" and (a.get("callee") or {}).get("nm") == "data" and b.get("k") == "sizeof" and b.get("ofrec") == rec:
-                        found = True
-                        out.append(Ob("size", cls, "%s:data-offset" % cls, n.get("loc"), const_value(b) == off,
-                                      "variable-length data starts at payload byte %d = sizeof(%s); layout says %d" % (const_value(b), rec, off)))
+        # the accessor itself, or the helpers of its class that it calls (a shared field walker)
+        cands = [g] + sorted((h for h in fb.reachable_from([g]).values() if h.key != g.key and h.rec and (h.rec == g.rec or h.rec in fb.bases_of(g.rec))),
+                             key=lambda h: h.name)
+        for h in cands:
+            for n in h.nodes():
+                if n.get("k") == "bin" and n.get("op") == "+":
+                    l, rr = strip_all_casts(n["l"]), strip_all_casts(n["r"])
+                    for a, b in ((l, rr), (rr, l)):
+                        b = strip_all_casts(expand(h, b))
+                        if a.get("k") == "call" and (a.get("callee") or {}).get("nm") == "data" and b.get("k") == "sizeof" and b.get("ofrec") == rec:
+                            found = True
+                            out.append(Ob("size", cls, "%s:data-offset" % cls, n.get("loc"), const_value(b) == off,
+                                          "variable-length data starts at payload byte %d = sizeof(%s); layout says %d" % (const_value(b), rec, off)))
+            if found:
+                break
         if not found:
             raise Broken("%s: data accessor does not use payloadData.data() + sizeof(Header)" % g.name)
     # ---- swapEndian
